@@ -53,7 +53,7 @@ MANIFEST = {
              'C18_no_error hold for every update sequence, every key selector, every reservoir capacity, every random '
              'outcome and every clock of the Gallina transcription of VARZ_DATA / _SampleSet / Aggregate / '
              'CalculatePercentile; the transcription is run in lock-step with the real code (fresh Source object per '
-             'update) on ~1.3k (quick) / ~7.4k (thorough) generated histories per run, including end-to-end runs through a '
+             'update) on ~1.2k (quick) / ~7.4k (thorough) generated histories per run, including end-to-end runs through a '
              'real MessageDispatcher.'),
     'note': ('Trusted: Coq kernel; the correspondence harness (harness/props/c18.py) and its sampling; float outputs '
              'compared within 1e-9, float decisions modelled by an explicit binary64 rounding. All theorems closed under '
@@ -270,7 +270,7 @@ def gen_target(r):
 def gen_cases(tier, seed):
   quick = tier == 'quick'
   out = []
-  n_run = 700 if quick else 4500
+  n_run = 600 if quick else 4500
   for i in range(n_run):
     r = C.case_rng(seed, PID, i)
     out.append(gen_run(r))
